@@ -89,6 +89,11 @@ class MultiRef:
         for a in ref.attributes:
             if a.name != 'id':
                 node.append(a)
+        # Namespace declarations the referenced node kept for itself still
+        # apply to the content moved here.
+        for prefix, uri in ref.nsprefixes.items():
+            if prefix != node.prefix and prefix not in node.nsprefixes:
+                node.addPrefix(prefix, uri)
         node.remove(href)
 
     def build_catalog(self, body):
